@@ -1397,7 +1397,8 @@ class Idioms3(ast.NodeTransformer):
         # L += [f(v) for v in IT] -> for v in IT: L.append(f(v))
         if isinstance(node.op, ast.Add):
             loop = self._comp_to_append_loop(node.target, node.value, node) \
-                if isinstance(node.value, ast.ListComp) else None
+                if isinstance(node.value, (ast.ListComp,
+                                           ast.GeneratorExp)) else None
             if loop is not None:
                 return loop
         return node
@@ -6778,4 +6779,80 @@ def drop_dead_tails(tree):
                     del blk[i + 1:]
                     done = True
                     break
+    return done
+
+
+def flatten_chain_lists(tree):
+    """`return list(itertools.chain.from_iterable(G))` / `v = list(...)`
+    -> `acc = []; for part in G: acc.extend(part)`; a call of a private
+    generator function bound to a name that only feeds that expression is
+    put in place first"""
+    gens = {st.name for st in tree.body if isinstance(st, ast.FunctionDef)
+            and any(isinstance(n, (ast.Yield, ast.YieldFrom))
+                    for n in ast.walk(st))}
+    done = False
+    for fn in [n for n in ast.walk(tree) if isinstance(n, ast.FunctionDef)]:
+        taken = {n.id for n in ast.walk(fn) if isinstance(n, ast.Name)}
+        for par in [fn] + list(_walk_own(fn)):
+            for fld in ("body", "orelse", "finalbody"):
+                blk = getattr(par, fld, None)
+                if not isinstance(blk, list):
+                    continue
+                i = 0
+                while i < len(blk):
+                    st = blk[i]
+                    i += 1
+                    if not isinstance(st, (ast.Return, ast.Assign)):
+                        continue
+                    v = st.value
+                    if not (isinstance(v, ast.Call) and norm(v.func) in (
+                            "list", "tuple") and len(v.args) == 1
+                            and isinstance(v.args[0], ast.Call) and norm(
+                                v.args[0].func) in (
+                                "itertools.chain.from_iterable",
+                                "chain.from_iterable")
+                            and len(v.args[0].args) == 1
+                            and norm(v.func) == "list"):
+                        continue
+                    src = v.args[0].args[0]
+                    # a generator bound just before, used only here
+                    if isinstance(src, ast.Name) and i >= 2:
+                        prev = blk[i - 2]
+                        if isinstance(prev, ast.Assign) and len(
+                                prev.targets) == 1 and isinstance(
+                                prev.targets[0], ast.Name) and \
+                                prev.targets[0].id == src.id and isinstance(
+                                    prev.value, ast.Call) and isinstance(
+                                    prev.value.func, ast.Name) and \
+                                prev.value.func.id in gens and sum(
+                                    1 for n in ast.walk(fn) if isinstance(
+                                        n, ast.Name) and n.id == src.id) == 2:
+                            src = prev.value
+                            del blk[i - 2]
+                            i -= 1
+                    acc, part = "_flat", "_part"
+                    while acc in taken:
+                        acc += "_"
+                    while part in taken:
+                        part += "_"
+                    taken |= {acc, part}
+                    init = ast.Assign(targets=[ast.Name(id=acc,
+                                                        ctx=ast.Store())],
+                                      value=ast.List(elts=[], ctx=ast.Load()))
+                    loop = ast.For(
+                        target=ast.Name(id=part, ctx=ast.Store()), iter=src,
+                        body=[ast.AugAssign(
+                            target=ast.Name(id=acc, ctx=ast.Store()),
+                            op=ast.Add(),
+                            value=ast.Name(id=part, ctx=ast.Load()))],
+                        orelse=[], type_comment=None)
+                    st.value = ast.Name(id=acc, ctx=ast.Load())
+                    for x in (init, loop):
+                        ast.copy_location(x, st)
+                        ast.fix_missing_locations(x)
+                    blk[i - 1:i - 1] = [init, loop]
+                    i += 2
+                    done = True
+    if done:
+        ast.fix_missing_locations(tree)
     return done
